@@ -31,4 +31,35 @@ SPECS = {
             "jiff SignedDuration / civil types are used as referees on the Rust side within their range",
         ],
     },
+    "C01": {
+        "id": "C01", "runners": ["RunC01"],
+        "partial": ["C01_full (decode = interp) is a theorem only for integer columns; all other kinds: per-case specification oracle + byte-exact model comparison"],
+        "info_meaning": "[cases whose schema is inside the builder model (compared array by array, byte for byte); cases with impl Ok fully judged by decode = interp]",
+        "assumptions": [
+            "logical content = decode (coq/Arrow/Arr.v); documented mapping = interp (coq/Ser/Value.v); both are specifications written from the Arrow format and the crate documentation, not from the builders",
+            "float presentations into non-float columns, temporal and decimal strings are not judged here (ISkip): see C14, C15",
+            "builder model (coq/Ser/Builder.v) covers Boolean, integers, Utf8/LargeUtf8, List/LargeList, Struct; other kinds are judged by the specification oracle only",
+            "to_marrow front end only in this stream; arrow/arrow2/ArrayBuilder front ends are compared in C19/C10",
+        ],
+    },
+    "C03": {
+        "id": "C03", "runners": ["RunC01"],
+        "partial": ["WfB (lock step) => wf_arr is bridged by the per-case oracle, not a theorem"],
+        "info_meaning": "[cases whose schema is inside the builder model; cases with impl Ok fully judged by decode = interp]",
+        "assumptions": [
+            "well-formedness = wf_batch strict (coq/Arrow/Wf.v), evaluated on the implementation's arrays for all data types; metadata and full data type equality are compared on the Rust side (Array::data_type() == field.data_type), arrow-rs validate_full is run as an independent referee",
+            "builder model covers Boolean, integers, Utf8/LargeUtf8, List/LargeList, Struct",
+        ],
+    },
+    "C10": {
+        "id": "C10", "runners": ["RunC01"],
+        "info_meaning": "[batches inside the builder model; batches fully judged by decode = interp]",
+        "assumptions": ["histories consist of rows the schema accepts (the statement speaks of successful pushes); behaviour after a failed push is not part of C10"],
+    },
+    "C11": {
+        "id": "C11", "runners": ["RunC01"],
+        "partial": ["field-order permutation invariance: differential + model comparison only"],
+        "info_meaning": "[cases inside the builder model; cases fully judged by decode = interp]",
+        "assumptions": ["AddrOk: two &'static str with equal address and length have equal content (Rust statics)"],
+    },
 }
